@@ -80,8 +80,8 @@ Example trans5_spec_value :
   = Some [(1%nat, 0%nat, Some (45 # 13)%Q); (1%nat, 2%nat, Some (8 # 39)%Q); (2%nat, 1%nat, Some (13 # 3)%Q)].
 Proof. vm_compute. reflexivity. Qed.
 
-(* read_code_sound: g_no_mod holds on ex_prog, and read_code is then translate *)
-Example no_mod_nonvacuous : g_no_mod ex_prog = true /\ read_code ex_prog = translate ex_prog.
+(* read_code_sound: read_code is translate on every program, e.g. on one that calls MOD *)
+Example read_code_nonvacuous : read_code ex_prog = translate ex_prog /\ read_code p_mod = translate p_mod.
 Proof. split; vm_compute; reflexivity. Qed.
 
 (* omega_positions: a 3x3 lower triangle starting at row 4 *)
